@@ -6,6 +6,7 @@
 package c14
 
 import (
+	"context"
 	"encoding/json"
 	"fmt"
 	"math"
@@ -13,6 +14,8 @@ import (
 	"os/exec"
 	"path/filepath"
 	"strconv"
+	"strings"
+	"time"
 
 	"github.com/flowmatters/openwater-core/sim"
 	"owverif.local/verif/mrun"
@@ -27,11 +30,24 @@ type probe struct {
 	cfg int
 }
 
-func (p probe) params() []float64 {
-	if p.cfg == 0 {
-		return p.tbl.Params[0]
+// the two configurations of a model use parameter vectors with the same state layout (so that a value cached by
+// shape rather than by value is exercised): GR4J X4 = 1 and 0.7 (n1 = 1, n2 = 2), Lag a single lag
+func configs(t tables.Table) (int, int) {
+	switch t.Model {
+	case "GR4J":
+		return 1, 5
+	case "Lag":
+		return 2, 2
 	}
-	return p.tbl.Params[len(p.tbl.Params)-1]
+	return 0, len(t.Params) - 1
+}
+
+func (p probe) params() []float64 {
+	a, b := configs(p.tbl)
+	if p.cfg == 0 {
+		return p.tbl.Params[a]
+	}
+	return p.tbl.Params[b]
 }
 
 func (p probe) word() []int {
@@ -137,6 +153,9 @@ func (e *enum) decode(i int64) (probe, []int) {
 	return e.probes[int(i)/len(e.hist)], e.hist[int(i)%len(e.hist)]
 }
 func key(p probe) string { return fmt.Sprintf("%s/%d", p.tbl.Model, p.cfg) }
+func zeroKey(p probe, k int) string {
+	return fmt.Sprintf("zeroed:%s/%d/%d", p.tbl.Model, p.cfg, k)
+}
 func (e *enum) Describe(i int64) interface{} {
 	p, h := e.decode(i)
 	hs := []string{}
@@ -190,47 +209,37 @@ func (e *enum) Run(i int64, r *vf.Rec) {
 	}
 	r.Count("histories_checked", 1)
 	if len(h) == 0 {
-		// causality: every truncation point, every replacement tail (a constant tail of every letter), from the
-		// model-initialised state and from a warmed-up (non-zero) state, for the probe word's own prefixes and for
-		// every constant-letter prefix (which includes quiet spells: zero load with and without flow)
-		wobj := sim.Catalog[p.tbl.Model]()
-		mrun.Configure(wobj, mrun.Col(p.params()))
-		warm := mrun.RunOn(wobj, inputsFor(p.tbl, other.word()), T, nil).States // same parameters (state layout), the other input word
-		for _, init := range [][]float64{nil, warm} {
-			for t := 1; t < T; t++ {
-				prefixes := [][]int{p.word()[:t]}
-				for l := range p.tbl.Letters {
-					c := make([]int, t)
-					for u := range c {
-						c[u] = l
-					}
-					prefixes = append(prefixes, c)
+		if !causality(p, p.params(), "", r) {
+			return
+		}
+		if p.cfg == 0 {
+			// parameter regions off the table: each parameter in turn set to zero (fall-back / default branches)
+			for k := range p.params() {
+				if p.params()[k] == 0 {
+					continue
 				}
-				for pk, prefix := range prefixes {
-					run := func(seq []int) mrun.Result {
-						o := sim.Catalog[p.tbl.Model]()
-						mrun.Configure(o, mrun.Col(p.params()))
-						r.Count("causality_runs", 1)
-						return mrun.RunOn(o, inputsFor(p.tbl, seq), len(seq), init)
-					}
-					ref := run(prefix)
-					for l := range p.tbl.Letters {
-						seq := append([]int{}, prefix...)
-						for u := t; u < T; u++ {
-							seq = append(seq, l)
+				if _, ok := e.baseline[zeroKey(p, k)]; !ok {
+					r.Count("zeroed_parameter_variants_outside_the_models_domain", 1) // crashed or did not finish in a fresh process
+					continue
+				}
+				v := append([]float64{}, p.params()...)
+				v[k] = 0
+				ok, panicked := true, false
+				func() {
+					defer func() {
+						if recover() != nil {
+							panicked = true
 						}
-						res := run(seq)
-						for k := range res.Out {
-							for u := 0; u < t; u++ {
-								if math.Float64bits(res.Out[k][u]) != math.Float64bits(ref.Out[k][u]) {
-									kind := map[bool]string{true: "probe-word-prefix", false: "constant-prefix"}[pk == 0] + map[bool]string{true: "/model-initialised-state", false: "/warmed-up-state"}[init == nil]
-									r.Failf(fmt.Sprintf("C14/%s/output-depends-on-later-input/%s", p.tbl.Model, kind), map[string]interface{}{"t": t, "step": u, "prefix": prefix, "sequence": seq, "init_states": init, "outputs_truncated_run": ref.Out, "outputs": res.Out},
-										"%s: output at step %d differs between the run truncated after step %d and the run continued with letter %d", p.tbl.Model, u, t, l)
-									return
-								}
-							}
-						}
-					}
+					}()
+					ok = causality(p, v, fmt.Sprintf("/parameter-%d-zeroed", k), r)
+				}()
+				if panicked {
+					r.Count("zeroed_parameter_variants_skipped_model_panics", 1)
+					continue
+				}
+				r.Count("zeroed_parameter_variants", 1)
+				if !ok {
+					return
 				}
 			}
 		}
@@ -238,14 +247,75 @@ func (e *enum) Run(i int64, r *vf.Rec) {
 	r.MarkNontrivial()
 }
 
+// causality: every truncation point, every replacement tail, from two initial states (see below); false = failed.
+func causality(p probe, params []float64, variant string, r *vf.Rec) bool {
+	other := probe{p.tbl, 1 - p.cfg}
+	// causality: every truncation point, every replacement tail (a constant tail of every letter), from the
+	// model-initialised state and from a warmed-up (non-zero) state, for the probe word's own prefixes and for
+	// every constant-letter prefix (which includes quiet spells: zero load with and without flow)
+	wobj := sim.Catalog[p.tbl.Model]()
+	mrun.Configure(wobj, mrun.Col(params))
+	warm := mrun.RunOn(wobj, inputsFor(p.tbl, other.word()), T, nil).States // same parameters (state layout), the other input word
+	for _, init := range [][]float64{nil, warm} {
+		for t := 1; t < T; t++ {
+			prefixes := [][]int{p.word()[:t]}
+			for l := range p.tbl.Letters {
+				c := make([]int, t)
+				for u := range c {
+					c[u] = l
+				}
+				prefixes = append(prefixes, c)
+			}
+			for pk, prefix := range prefixes {
+				run := func(seq []int) mrun.Result {
+					o := sim.Catalog[p.tbl.Model]()
+					mrun.Configure(o, mrun.Col(params))
+					r.Count("causality_runs", 1)
+					return mrun.RunOn(o, inputsFor(p.tbl, seq), len(seq), init)
+				}
+				ref := run(prefix)
+				for l := range p.tbl.Letters {
+					seq := append([]int{}, prefix...)
+					for u := t; u < T; u++ {
+						seq = append(seq, l)
+					}
+					res := run(seq)
+					for k := range res.Out {
+						for u := 0; u < t; u++ {
+							if math.Float64bits(res.Out[k][u]) != math.Float64bits(ref.Out[k][u]) {
+								kind := map[bool]string{true: "probe-word-prefix", false: "constant-prefix"}[pk == 0] + map[bool]string{true: "/model-initialised-state", false: "/warmed-up-state"}[init == nil]
+								r.Failf(fmt.Sprintf("C14/%s/output-depends-on-later-input/%s%s", p.tbl.Model, kind, variant), map[string]interface{}{"t": t, "step": u, "prefix": prefix, "sequence": seq, "init_states": init, "outputs_truncated_run": ref.Out, "outputs": res.Out, "params": params},
+									"%s: output at step %d differs between the run truncated after step %d and the run continued with letter %d", p.tbl.Model, u, t, l)
+								return false
+							}
+						}
+					}
+				}
+			}
+		}
+	}
+	return true
+}
+
 // sub-command: --probe k  prints the result bits of probe k run first in this (fresh) process.
 func sub(args []string) bool {
+	if len(args) >= 3 && args[0] == "--zero-screen" {
+		// can the probe's configuration with parameter j set to zero be run at all? (exit 0 = yes)
+		k, _ := strconv.Atoi(args[1])
+		j, _ := strconv.Atoi(args[2])
+		p := probes()[k]
+		v := append([]float64{}, p.params()...)
+		v[j] = 0
+		causality(p, v, "", vf.NewRec())
+		fmt.Fprintln(vf.Stdout, "ok")
+		return true
+	}
 	if len(args) >= 2 && args[0] == "--probe" {
 		k, _ := strconv.Atoi(args[1])
 		p := probes()[k]
 		res := runOn(sim.Catalog[p.tbl.Model](), p)
 		b, _ := json.Marshal(bits(res))
-		fmt.Println(string(b))
+		fmt.Fprintln(vf.Stdout, string(b))
 		return true
 	}
 	return false
@@ -277,7 +347,50 @@ func pre(tier string, r *vf.Rec) {
 			r.Failf("C14/"+p.tbl.Model+"/fresh-process-runs-differ", nil, "%s: two fresh processes gave different results", key(p))
 		}
 	}
-	r.Count("fresh_process_baselines", int64(2*len(out)))
+	// screen the zeroed-parameter variants used by the causality part: a variant is used only if it runs to completion
+	// in a fresh process (a zero can be outside a model's domain: table sizes, month numbers, divisors)
+	type zjob struct {
+		k, j int
+		key  string
+	}
+	var zj []zjob
+	for k, p := range probes() {
+		if p.cfg != 0 {
+			continue
+		}
+		for j, v := range p.params() {
+			if v != 0 {
+				zj = append(zj, zjob{k, j, zeroKey(p, j)})
+			}
+		}
+	}
+	okc := make(chan string, len(zj))
+	sem := make(chan bool, 12)
+	for _, z := range zj {
+		z := z
+		sem <- true
+		go func() {
+			defer func() { <-sem }()
+			ctx, cancel := context.WithTimeout(context.Background(), 60*time.Second)
+			defer cancel()
+			b, err := exec.CommandContext(ctx, self, "C14", "--zero-screen", strconv.Itoa(z.k), strconv.Itoa(z.j)).Output()
+			if err == nil && strings.HasSuffix(strings.TrimSpace(string(b)), "ok") {
+				okc <- z.key
+			} else {
+				okc <- ""
+			}
+		}()
+	}
+	usable := 0
+	for range zj {
+		if k := <-okc; k != "" {
+			out[k] = []uint64{1}
+			usable++
+		}
+	}
+	r.Count("zeroed_parameter_variants_screened", int64(len(zj)))
+	r.Count("zeroed_parameter_variants_usable", int64(usable))
+	r.Count("fresh_process_baselines", int64(2*(len(out)-usable)))
 	os.MkdirAll(filepath.Join(vf.Root, ".build"), 0755)
 	b, _ := json.Marshal(out)
 	os.WriteFile(baselinePath(), b, 0644)
